@@ -224,6 +224,18 @@ public:
 
   std::string typeName() const;
 
+  /**
+   * Convert a decimal to integer as the built-in function int() does: the
+   * value must be in the range of integer representation.
+   * @throws RuntimeError(EXC_RT_OUT_OF_RANGE)
+   */
+  static Integer integerOf(Numeric d)
+  {
+    if (!(d >= Numeric(INT64_MIN) && d < Numeric(INT64_MAX)))
+      throw RuntimeError(EXC_RT_OUT_OF_RANGE);
+    return Integer(d);
+  }
+
   /* readables */
 
   static std::string readableBoolean(Bool& b);
